@@ -31,7 +31,7 @@ from .common import Report
 class _QF(torch.autograd.Function):
     @staticmethod
     def forward(ctx, x, fmt):
-        return fmt.quantise(x)
+        return fmt.quantise(x.detach().clone())     # on a private copy: the reference must not depend on quantise leaving its argument alone
 
     @staticmethod
     def backward(ctx, g):
@@ -46,7 +46,7 @@ class _QB(torch.autograd.Function):
 
     @staticmethod
     def backward(ctx, g):
-        return ctx.fmt.quantise(g), None
+        return ctx.fmt.quantise(g.detach().clone()), None
 
 
 CUR_FMT: Dict[str, Any] = {}   # "FWD"/"BWD" -> FPFormat for graph-built references (fx cannot embed the objects)
